@@ -122,6 +122,12 @@ def space(tier):
                           {"fault": 1, "thread": 1, "timer": 1, "total": 2}, cap))
     big = {"name": "S+bigresult", "seq": P.U("S"), "ret": {"pad": 6 * 1024 * 1024}}
     units.append(({"program": big, "cfg": {"env_kinds": ["fault"], "faults": FAULTS}}, {"fault": 1, "total": 1}, cap))
+    # callers queued behind the failing in-flight call (50 ms API latency, step bodies of 120 ms)
+    for names in (("Sd",), ("Hd",), ("Sd", "S")):
+        p = P.program(names)
+        for pol in ("rtb", "low", "high"):
+            units.append(({"program": p, "cfg": {"env_kinds": ["fault"], "faults": ["5xx", "4xx"], "api_latency": 0.05, "policy": pol}},
+                          {"fault": 1, "thread": 1, "total": 2 if pol == "rtb" else 1}, cap))
     return units
 
 
